@@ -12,6 +12,7 @@ import OFV.Proofs.C07Fermi
 import OFV.Proofs.C07Dual
 import OFV.Proofs.C07BCH
 import OFV.Proofs.C07Ops
+import OFV.Proofs.C07Hop
 
 namespace OFV.C07
 open OFV OFV.Spec OFV.Spec.C07 OFV.Model OFV.Model.C07 OFV.Proofs.C07 OFV.Proofs.C07F
@@ -343,5 +344,50 @@ theorem hc_quad_term_sound (hbar : GQ) (t t₁ t₂ : List (Nat × Nat)) (e : Sp
   ⟨hcQuad_key_sound hbar t e, List.reverse_append⟩
 
 example : hcBoson [([(0, 1), (1, 0), (0, 0)], ⟨1, 2⟩)] = [([(0, 1), (0, 0), (1, 1)], ⟨1, -2⟩)] := by decide +kernel
+
+/-! ### the hopping shortcut of `double_commutator` -/
+
+/-- `hopping_shortcut_sound`, one shared mode.  For hopping operators `t (i^ k + k^ i)` and
+`w (k^ j + j^ k)` on index sets `{i, k}`, `{k, j}` (distinct `i, k, j`, any listing order of the sets):
+(1) the Model of `double_commutator(op1, op2, op3, indices2, indices3, True, True)` is
+`normal_ordered(commutator(op1, C))` with the shortcut operator `C = t w (i^ j) + (-t w) (j^ i)`;
+(2) `C` is the true commutator: `⟨u| commutator(op2, op3) |s⟩ = ⟨u| C |s⟩` for all Fock basis states
+— so the shortcut and the generic path `normal_ordered(commutator(op1, normal_ordered(commutator(op2, op3))))`
+feed the same operator to the common outer step.  (Exact regimes of the in-place additions assumed.) -/
+theorem hopping_shortcut_sound (tol : Rat) (a : List (List (Nat × Nat) × GQ)) (i k j : Nat) (t w : GQ)
+    (hik : i ≠ k) (hjk : j ≠ k) (hij : i ≠ j) (i2 i3 : List Nat)
+    (h2 : i2 = [i, k] ∨ i2 = [k, i]) (h3 : i3 = [k, j] ∨ i3 = [j, k]) (s u : Nat)
+    (he : ExactAdd tol (mulOp .fermion (hopOp i k t) (hopOp k j w))
+      ((mulOp .fermion (hopOp k j w) (hopOp i k t)).map fun e => (e.1, -e.2)))
+    (hc : ExactAdd tol (Model.mk .fermion [(i, 1), (j, 0)] (t * w)) (Model.mk .fermion [(j, 1), (i, 0)] (-(t * w)))) :
+    doubleCommutatorHopping tol a (hopOp i k t) (hopOp k j w) i2 i3 =
+      normalOrdered tol (commutator tol .fermion a (hopC23 tol i j (t * w))) ∧
+    den (phiF s u) (commutator tol .fermion (hopOp i k t) (hopOp k j w)) =
+      den (phiF s u) (hopC23 tol i j (t * w)) := by
+  refine ⟨doubleCommutatorHopping_shared tol a i k j t w hik hjk hij i2 i3 h2 h3, ?_⟩
+  rw [hop_commutator tol i k j t w hik hjk hij s u he, den_hopC23 tol _ i j (t * w) hc]
+
+/-- `hopping_shortcut_sound`, no shared mode: the shortcut returns the zero operator, and the
+commutator of the two hopping operators really has only zero matrix elements. -/
+theorem hopping_shortcut_disjoint (tol : Rat) (a : List (List (Nat × Nat) × GQ)) (i k j l : Nat) (t w : GQ)
+    (h1 : i ≠ j) (h2 : i ≠ l) (h3 : k ≠ j) (h4 : k ≠ l) (s u : Nat)
+    (he : ExactAdd tol (mulOp .fermion (hopOp i k t) (hopOp j l w))
+      ((mulOp .fermion (hopOp j l w) (hopOp i k t)).map fun e => (e.1, -e.2))) :
+    doubleCommutatorHopping tol a (hopOp i k t) (hopOp j l w) [i, k] [j, l] = [] ∧
+    den (phiF s u) (commutator tol .fermion (hopOp i k t) (hopOp j l w)) = 0 :=
+  ⟨doubleCommutatorHopping_disjoint tol a _ _ i k j l h1 h2 h3 h4, hop_commutator_disjoint tol i k j l t w h1 h2 h3 h4 s u he⟩
+
+/-- `hopping_shortcut_sound`, both modes shared (the case the shortcut answers with zero through the
+`ValueError` of the tuple unpacking): `[t (i^ k + k^ i), w (i^ k + k^ i)]` denotes 0 under every term
+functional. -/
+theorem hopping_shortcut_same (tol : Rat) (φ : List (Nat × Nat) → GQ) (i k : Nat) (t w : GQ)
+    (B : List (List (Nat × Nat) × GQ)) (hB : B = hopOp i k w ∨ B = hopOp k i w)
+    (he : ExactAdd tol (mulOp .fermion (hopOp i k t) B) ((mulOp .fermion B (hopOp i k t)).map fun e => (e.1, -e.2))) :
+    den φ (commutator tol .fermion (hopOp i k t) B) = 0 :=
+  hop_commutator_same tol φ i k t w B hB he
+
+example : hopOp 0 1 ⟨2, 0⟩ = [([(0, 1), (1, 0)], ⟨2, 0⟩), ([(1, 1), (0, 0)], ⟨2, 0⟩)] ∧
+    ([0, 1].filter [2, 1].contains) = [1] := by
+  refine ⟨rfl, by decide⟩
 
 end OFV.C07
